@@ -254,8 +254,17 @@ def _g1(ctx: Context, counter_sites) -> None:
         ctr_attr = ("attr", ("param", "self"), ctr)
         if packs0 and not any(strip_sites(a[2][-1]) == ctr_attr for a in packs0) and any(
                 contains(strip_sites(a[2][-1]), lambda s_: s_ == ctr_attr) for a in packs0):
-            ck.unknown("C06.G1", f"{f.qualname.rsplit('.', 2)[-2]}.{f.name}: the nonce of the {kind} is packed from a local that is computed from self.{ctr} "
-                                 "(the counter is threaded through a local and written back): use / increment pairing over values is not decided", ctx.loc(f, n))
+            from ._counter import advance_mismatch
+
+            mm = advance_mismatch(ctx, f, cfg, T0, ctr) if kind == "encrypt" and f.name == "send_bytes" else None
+            if mm is not None:
+                ck.violated("C06.G1", f"{ctx.fkey(f)}:reserved-nonces-differ-from-frames:{ctr}",
+                            f"{f.qualname.rsplit('.', 2)[-2]}.{f.name} advances {ctr} once per request by `{mm[0].text()[:70]}`: for a request of {mm[1]} bytes that is {mm[2]}, but "
+                            f"{mm[3]} message(s) are sealed - the next request starts at a counter that was already used (nonce reuse) or skips one", ctx.loc(f, mm[0]), None,
+                            "the counter advances by the number of messages sealed")
+            else:
+                ck.unknown("C06.G1", f"{f.qualname.rsplit('.', 2)[-2]}.{f.name}: the nonce of the {kind} is packed from a local that is computed from self.{ctr} "
+                                     "(the counter is threaded through a local and written back): use / increment pairing over values is not decided", ctx.loc(f, n))
             done += 1
             continue
         other_calls = {x[2].id for x in counter_sites if x[0] is f and x[4] == ctr}
